@@ -216,6 +216,30 @@ Fixpoint last_write (n : string) (p : list (string * string)) : option string :=
                     end
   end.
 
+(* ------------------------------------------------------------------ interpreter-global state *)
+(* The `from m import names` nodes that ClientGenerator puts into every client module are MODULE-LEVEL
+   constants (UNSET_IMPORT, UPLOAD_IMPORT, ...), shared by all generations of one interpreter.
+   pstate = the names each shared node currently holds.  ClientForwardRefsPlugin._update_existing_imports
+   assigns `node.names = reduced_names` on them.  [wanted] = the types the plugin wants to import only under
+   TYPE_CHECKING; it can only move those it finds among the imports.  [copy] = the proposed fix (new node).
+   Result: ((import statements of client.py, names imported under TYPE_CHECKING), state afterwards). *)
+Definition pstate := list (string * list string).
+Definition all_names (st : pstate) : list string := flat_map snd st.
+Definition nonempty_imports (st : pstate) : pstate :=
+  filter (fun p => match snd p with [] => false | _ => true end) st.   (* _add_import drops nameless imports *)
+Definition gen_client_imports (copy plugin : bool) (wanted : list string) (st : pstate)
+  : (pstate * list string) * pstate :=
+  if plugin then
+    let moved := filter (fun n => mem_s n (all_names st)) wanted in
+    let reduced := map (fun p => (fst p, set_diff (snd p) moved)) st in
+    ((nonempty_imports reduced, moved), if copy then st else reduced)
+  else ((nonempty_imports st, []), st).
+(* a history of earlier generations (plugin?, wanted) in the same interpreter *)
+Definition run_history (copy : bool) (hist : list (bool * list string)) (st : pstate) : pstate :=
+  fold_left (fun st h => snd (gen_client_imports copy (fst h) (snd h) st)) hist st.
+Definition st_initial : pstate :=
+  [("base_model", ["UNSET"; "UnsetType"]); ("base_model", ["Upload"]); ("async_base_client", ["AsyncBaseClient"])].
+
 (* ------------------------------------------------------------------ the site table *)
 Inductive sink :=
 | SkNone        (* construction / pure set algebra: no order observed here *)
@@ -318,6 +342,17 @@ Definition site_table : list site := [
   St "client_generators/result_types.py" "ResultTypesGenerator._get_all_related_fragments" "iter" "self._fragments_used_as_mixins" SkMember
     "the loop only unions into another set, consumed by sorted() in get_operation_as_str";
   St "client_generators/result_types.py" "ResultTypesGenerator._get_fragments_names" "construct" "set()" SkNone "";
+  St "client_generators/result_types.py" "ResultTypesGenerator._get_fragment_bases" "construct" "set(bases)" SkNone "";
+  St "client_generators/result_types.py" "ResultTypesGenerator._get_fragment_bases" "construct" "set(self._unpacked_fragments)" SkNone "";
+  St "client_generators/result_types.py" "ResultTypesGenerator._get_fragment_bases" "iter" "bases" SkMember
+    "the loop only unions into the result set";
+  St "client_generators/result_types.py" "ResultTypesGenerator._remove_inherited_fragments" "construct" "set()" SkNone "";
+  St "client_generators/result_types.py" "ResultTypesGenerator._remove_inherited_fragments" "iter" "fragments" SkMember
+    "the loop only unions into a set that is subtracted";
+  St "client_generators/result_types.py" "ResultTypesGenerator._parse_type_definition" "arg" "fragments" SkMember
+    "flows into _remove_inherited_fragments (set algebra only)";
+  St "client_generators/result_types.py" "ResultTypesGenerator._parse_type_definition" "sorted"
+    "self._remove_inherited_fragments(fragments)" SkSorted "class_bases (since 959c464)";
   St "client_generators/result_types.py" "ResultTypesGenerator._get_inline_fragment_root_type" "construct"
     "{interface.name for interface in type_.interfaces}" SkNone "";
   St "client_generators/result_types.py" "ResultTypesGenerator._get_inline_fragment_root_type" "member"
@@ -363,6 +398,9 @@ Definition site_table : list site := [
   St "contrib/shorter_results.py" "ShorterResultsPlugin.generate_client_module" "sorted" "self.extended_imports[stmt.module]" SkSorted
     "the proposed fix";
   St "contrib/shorter_results.py" "ShorterResultsPlugin.generate_client_module" "sorted" "alias" SkSorted "the proposed fix";
+  St "graphql_schema_generators/constants.py" "<module>" "construct"
+    "frozenset(GRAPHQL_IMPORTS + TYPE_MAP_IMPORTS + TYPING_IMPORTS)" SkNone "";
+  St "settings.py" "assert_name_is_not_reserved_in_schema_module" "member" "RESERVED_VARIABLE_NAMES" SkMember "";
   St "schema.py" "add_mixin_directive_to_schema" "construct" "{d.name for d in schema.directives}" SkNone "";
   St "schema.py" "add_mixin_directive_to_schema" "member" "{d.name for d in schema.directives}" SkMember "";
   St "schema.py" "load_graphql_files_from_path" "sorted" "walk_graphql_files(path)" SkSorted "load_dir";
@@ -423,6 +461,17 @@ Definition run_nondet (e : sexp) : sexp :=
       match dList (dPair dStr dStr) p, dList (dPair dStr dStr) fs with
       | Some pp, Some f => L (map (fun x => L [A (fst x); A (snd x)]) (write_all pp f))
       | _, _ => sErr "writeall" end
+  | L [A "procstate"; cp; hist; st] =>
+      match dB cp, dList (dPair dB dStrs) hist, dList (dPair dStr dStrs) st with
+      | Some c, Some h, Some s0 =>
+          L ((fix go (h : list (bool * list string)) (st : pstate) : list sexp :=
+                match h with
+                | [] => []
+                | x :: r =>
+                    let '((imps, moved), st') := gen_client_imports c (fst x) (snd x) st in
+                    L [L (map (fun p => L [A (fst p); sStrs (snd p)]) imps); sStrs moved] :: go r st'
+                end) h s0)
+      | _, _, _ => sErr "procstate" end
   | L [A "sites"] =>
       L (map (fun s => L [A (s_file s); A (s_fn s); A (s_ctx s); A (s_expr s); A (sink_name (s_sink s));
                           sB (order_sensitive (s_sink s)); A (s_note s)]) site_table)
